@@ -90,11 +90,17 @@ def main():
         return
     if a.cmd == "all":
         names = [m["name"] for m in MUTANTS]
+        allres = []
         with ThreadPoolExecutor(a.jobs) as ex:
             for res in ex.map(lambda n: run_one(n, None, not a.no_tests), names):
                 det = {p: v[0] for p, v in res["detected"].items()}
                 missed = [p for p in res["breaks"] if det.get(p) != 1]
                 print(("MISSED " if missed else "caught ") + res["mutant"], "tests:", res["tests"], det, flush=True)
+                why = next(m["why"] for m in MUTANTS if m["name"] == res["mutant"])
+                allres.append({"mutant": res["mutant"], "why": why, "breaks": res["breaks"], "repository_tests": res["tests"],
+                               "check_exit": det, "missed": missed})
+        out = os.path.join(os.path.dirname(HERE), "seeded", "mutants_last_run.json")
+        json.dump(allres, open(out, "w"), indent=1)
 
 
 if __name__ == "__main__":
